@@ -94,4 +94,24 @@ associativity of each level and the role/kind of each operator — but not bison
 def rows (D : Data) : List (Bool × List (String × Nat × String)) :=
   ((List.range (D.levels.length + 1)).map (fun l => (D.tbl.ra l, rowAt D l))).filter (fun r => !r.2.isEmpty)
 
+/-! ### builtin functions (hand-written from the UPPAAL language reference: name, kind of the node, number of arguments) -/
+
+def builtinSpec : List (String × String × Nat) := [
+  ("abs", "ABS_F", 1), ("fabs", "FABS_F", 1), ("exp", "EXP_F", 1), ("exp2", "EXP2_F", 1),
+  ("expm1", "EXPM1_F", 1), ("ln", "LN_F", 1), ("log", "LOG_F", 1), ("log10", "LOG10_F", 1),
+  ("log2", "LOG2_F", 1), ("log1p", "LOG1P_F", 1), ("sqrt", "SQRT_F", 1), ("cbrt", "CBRT_F", 1),
+  ("sin", "SIN_F", 1), ("cos", "COS_F", 1), ("tan", "TAN_F", 1), ("asin", "ASIN_F", 1),
+  ("acos", "ACOS_F", 1), ("atan", "ATAN_F", 1), ("sinh", "SINH_F", 1), ("cosh", "COSH_F", 1),
+  ("tanh", "TANH_F", 1), ("asinh", "ASINH_F", 1), ("acosh", "ACOSH_F", 1), ("atanh", "ATANH_F", 1),
+  ("erf", "ERF_F", 1), ("erfc", "ERFC_F", 1), ("tgamma", "TGAMMA_F", 1), ("lgamma", "LGAMMA_F", 1),
+  ("ceil", "CEIL_F", 1), ("floor", "FLOOR_F", 1), ("trunc", "TRUNC_F", 1), ("round", "ROUND_F", 1),
+  ("fint", "FINT_F", 1), ("ilogb", "ILOGB_F", 1), ("logb", "LOGB_F", 1), ("fpclassify", "FP_CLASSIFY_F", 1),
+  ("isfinite", "IS_FINITE_F", 1), ("isinf", "IS_INF_F", 1), ("isnan", "IS_NAN_F", 1), ("isnormal", "IS_NORMAL_F", 1),
+  ("signbit", "SIGNBIT_F", 1), ("isunordered", "IS_UNORDERED_F", 1), ("random", "RANDOM_F", 1), ("random_poisson", "RANDOM_POISSON_F", 1),
+  ("fmod", "FMOD_F", 2), ("fmax", "FMAX_F", 2), ("fmin", "FMIN_F", 2), ("fdim", "FDIM_F", 2),
+  ("pow", "POW_F", 2), ("hypot", "HYPOT_F", 2), ("atan2", "ATAN2_F", 2), ("ldexp", "LDEXP_F", 2),
+  ("nextafter", "NEXT_AFTER_F", 2), ("copysign", "COPY_SIGN_F", 2), ("random_arcsine", "RANDOM_ARCSINE_F", 2), ("random_beta", "RANDOM_BETA_F", 2),
+  ("random_gamma", "RANDOM_GAMMA_F", 2), ("random_normal", "RANDOM_NORMAL_F", 2), ("random_weibull", "RANDOM_WEIBULL_F", 2), ("fma", "FMA_F", 3),
+  ("random_tri", "RANDOM_TRI_F", 3)]
+
 end UtapModel.Spec
